@@ -189,6 +189,8 @@ def install_builtins(E):
         name = n.concrete() if isinstance(n, VStr) else None
         if name is None:
             raise Unsupported('getattr with symbolic name')
+        if isinstance(o, VNone) and len(args) > 2 and not name.startswith('__'):
+            return args[2]          # getattr(None, name, default): the default
         try:
             return E.getattr(o, name)
         except Unsupported:
